@@ -109,9 +109,15 @@ func (g *gen) value(sb *strings.Builder, depth int) {
 		sb.WriteByte('{')
 		used := map[string]bool{}
 		first := true
+		emptyAt := -1
+		if n > 12 && g.o.Escapes && g.d(3) == 0 {
+			emptyAt = g.d(n) // big (indexed) objects also get the empty key
+		}
 		for i := 0; i < n; i++ {
 			var key string
-			if n > 12 {
+			if i == emptyAt {
+				key = ""
+			} else if n > 12 {
 				key = "k" + strconv.Itoa(i)
 				if g.o.DupKeys && i > 0 && g.d(8) == 0 {
 					key = "k" + strconv.Itoa(g.d(i))
